@@ -596,56 +596,77 @@ def _reads_adhoc(F, f):
     return any('["f", "adhoc", "tx3_tir::model::v1beta0::Tx"' in json.dumps(b["blocks"]) for b in with_closures(F, f))
 
 
+ADHOC_TRANSPARENT = ("std::iter::Iterator::filter", "std::iter::Iterator::map", "std::iter::Iterator::cloned", "std::iter::Iterator::copied", "core::slice::<impl [T]>::iter",
+                     "std::ops::Deref::deref", "std::iter::IntoIterator::into_iter", "std::iter::Iterator::rev", "std::iter::Iterator::enumerate", "std::iter::Iterator::peekable")
+
+
 def nofilter(F, res):
+    """Nothing the template wrote is dropped on the way into the body: in the whole compiler-crate closure of the function that
+    builds the TransactionBody (found by role) and of the feeder of Tx.auxiliary_data there is no item-dropping adaptor
+    (`filter`, `take`, `skip`, `find`, `first`, `dedup`, `retain`, a `flat_map` over a Result ..) and no keyed collapse, other
+    than the tabled ones.  Selections of chain-specific ad-hoc directives *by name* (the receiver derives from `tx.adhoc`) are
+    outside the core fragment.  Keys name the top-level function (historical names of the roles), not the closure."""
+    from ..common import keyed_collapses, row_lookup
     exc = {r["key"]: r["reason"] for r in rows("filters")}
-    # the functions that assemble the transaction body (found by role: the builder of TransactionBody, the crate functions
-    # it calls, and the feeder of Tx.auxiliary_data); keys keep the historical names of the roles
     tbp = roles.builder_of(F, "tx3_cardano", "::TransactionBody")
-    names = {tbp: "compile_tx_body"}
-    for b in with_closures(F, F.fns[tbp]):
-        for bi, t in mir.calls(b):
-            c = t.get("callee") or ""
-            if c in F.fns and F.fns[c]["crate"] == "tx3_cardano" and c.startswith(tbp.rsplit("::", 1)[0] + "::") and not _reads_adhoc(F, F.fns[c]):
-                names.setdefault(c, c.split("::")[-1])
-    for fld, hist in (("inputs", "compile_inputs"), ("outputs", "compile_outputs"), ("mint", "compile_mint_block"), ("required_signers", "compile_required_signers")):
+    hist = {tbp: "compile_tx_body"}
+    for fld, h in (("inputs", "compile_inputs"), ("outputs", "compile_outputs"), ("mint", "compile_mint_block"), ("required_signers", "compile_required_signers")):
         try:
-            names[roles.feeder_of(F, tbp, "::TransactionBody", fld)] = hist
+            hist[roles.feeder_of(F, tbp, "::TransactionBody", fld)] = h
         except BrokenCheck:
             pass    # the field is not fed by a function any more: USE / ATTRIB report that
+    roots = [tbp]
     try:
-        names[roles.feeder_of(F, roles.builder_of(F, "tx3_cardano", "::Tx"), "::Tx", "auxiliary_data")] = "compile_auxiliary_data"
+        aux = roles.feeder_of(F, roles.builder_of(F, "tx3_cardano", "::Tx"), "::Tx", "auxiliary_data")
+        hist[aux] = "compile_auxiliary_data"
+        roots.append(aux)
     except BrokenCheck:
         pass
-    res.count("body-assembling functions", len(names))
-    res.floor("body-assembling functions", len(names), 6)
-    n = 0
-    for fp, name in sorted(names.items()):
-        f = F.fns[fp]
-        for b in with_closures(F, f):
-            du = None
-            for bi, t in mir.calls(b):
-                c = t.get("callee") or ""
-                last = c.split("::")[-1]
-                is_filter = (c.startswith("std::iter::Iterator::") and last in FILTERS) or (c.startswith("core::slice::<impl [T]>::") and last in ("first", "last")) \
-                    or (last in ("dedup", "dedup_by_key", "retain") and "Vec" in c)
-                drops_err = False
-                if c == "std::iter::Iterator::flat_map":
-                    # flat_map whose closure returns a Result: Result is IntoIterator, Err items vanish
-                    g = t.get("gargs") or []
-                    if len(g) > 1 and g[1].startswith("std::result::Result<"):
-                        drops_err = True
-                if not (is_filter or drops_err):
-                    continue
-                n += 1
-                key = "%s|%s" % (name, last + (" over Result" if drops_err else ""))
-                w = where(b, t["line"])
-                if key in exc:
-                    res.add([ok("NOFILTER", key, w, "tabled: " + exc[key])])
-                elif drops_err:
-                    res.add([finding("NOFILTER", key, w, "`%s` iterates a Result: when the coercion fails the item is silently dropped from the transaction instead of failing the compilation" % last)])
-                else:
-                    res.add([finding("NOFILTER", key, w, "`%s` can drop items of a list the template wrote" % last)])
-    res.count("filtering adaptors seen", n)
+    reach = sorted(p for p in CallGraph(F, callbacks=False).reachable(roots) if F.fns[p]["crate"] == "tx3_cardano" and not is_derive(F.fns[p]))
+    res.count("functions between the IR and the transaction body", len(reach))
+    res.floor("functions between the IR and the transaction body", len(reach), 40)
+
+    def top(p):
+        f = F.fns[p]
+        while f.get("owner") and f["owner"] in F.fns:
+            f = F.fns[f["owner"]]
+        return f["path"]
+    sites = []
+    for p in reach:
+        b = F.fns[p]
+        du = None
+        name = hist.get(top(p), top(p).split("::")[-1])
+        for bi, t in mir.calls(b):
+            c = t.get("callee") or ""
+            last = c.split("::")[-1]
+            is_filter = (c.startswith("std::iter::Iterator::") and last in FILTERS) or (c.startswith("core::slice::<impl [T]>::") and last in ("first", "last")) \
+                or (last in ("dedup", "dedup_by_key", "retain") and "Vec" in c)
+            drops_err = False
+            if c == "std::iter::Iterator::flat_map":
+                # flat_map whose closure returns a Result: Result is IntoIterator, Err items vanish
+                g = t.get("gargs") or []
+                if len(g) > 1 and g[1].startswith("std::result::Result<"):
+                    drops_err = True
+            if not (is_filter or drops_err) or not t["args"]:
+                continue
+            du = du or mir.DefUse(b)
+            if any(o.kind == "arg" and ".adhoc" in o.proj for o in mir.provenance(b, du, t["args"][0], transparent_extra=ADHOC_TRANSPARENT)):
+                continue
+            sites.append(("%s|%s" % (name, last + (" over Result" if drops_err else "")), where(b, t["line"]), last, drops_err))
+        for line, what in keyed_collapses(F, b):
+            sites.append(("%s|keyed collapse" % name, where(b, line), what, None))
+    look = row_lookup(exc, {k for k, _, _, _ in sites})
+    for key, w, last, drops_err in sites:
+        r = look(key)
+        if r:
+            res.add([ok("NOFILTER", key, w, "tabled: " + r[0] + (" (row relocated from %s)" % r[1] if r[1] else ""))])
+        elif drops_err is None:
+            res.add([finding("NOFILTER", key, w, "%s: items the template wrote that agree on that part become one" % last)])
+        elif drops_err:
+            res.add([finding("NOFILTER", key, w, "`%s` iterates a Result: when the coercion fails the item is silently dropped from the transaction instead of failing the compilation" % last)])
+        else:
+            res.add([finding("NOFILTER", key, w, "`%s` can drop items of a list the template wrote" % last)])
+    res.count("filtering adaptors seen", len(sites))
 
 
 def order(F, res):
